@@ -53,7 +53,7 @@ def run_one(item):
 
 def main():
     items = []
-    for root in sys.argv[1:]:
+    for root in [os.path.abspath(r) for r in sys.argv[1:]]:
         for dirpath, dirs, files in os.walk(root):
             for f in sorted(files):
                 if f == 'patch.adapted.diff':
